@@ -19,8 +19,8 @@ import re
 
 from .inline import BASELINE
 
-# drift = 1 - similarity ratio of the two skeletons; edit = number of skeleton tokens not matched.  Tiny functions change their
-# ratio wildly with one statement, so both must be exceeded.
+# drift = 1 - similarity ratio of the two skeletons (tokens carry the nesting depth); edit = number of statements added or
+# removed (depth ignored).  Tiny functions change their ratio wildly with one statement, so both must be exceeded.
 MAX_DRIFT = 0.25
 MIN_EDIT = 4
 
@@ -72,7 +72,7 @@ def skeleton(fnode) -> list[str]:
                 cn = call_name(v) if v is not None else None
                 if cn:
                     extra = ":" + cn
-            toks.append(f"{depth}{type(s).__name__}{extra}")
+            toks.append(f"{depth}|{type(s).__name__}{extra}")
             for fld in ("body", "orelse", "finalbody"):
                 b = getattr(s, fld, None)
                 if isinstance(b, list) and b and isinstance(b[0], ast.stmt):
@@ -107,9 +107,13 @@ def drift_of(func) -> tuple[float, int] | None:
     q = func.qualname
     if q not in base:
         return 1.0, max(len(cur), MIN_EDIT)
+    # drift: with nesting depth (a block moved under a new guard / loop / context manager is a different control structure);
+    # edit: number of statements added or removed, ignoring depth (wrapping three lines in one `if` is a one-statement edit)
     sm = difflib.SequenceMatcher(None, base[q], cur, autojunk=False)
-    matched = sum(b.size for b in sm.get_matching_blocks())
-    return 1 - sm.ratio(), len(base[q]) + len(cur) - 2 * matched
+    flat_b, flat_c = [t.split("|", 1)[-1] for t in base[q]], [t.split("|", 1)[-1] for t in cur]
+    sm2 = difflib.SequenceMatcher(None, flat_b, flat_c, autojunk=False)
+    matched = sum(b.size for b in sm2.get_matching_blocks())
+    return 1 - sm.ratio(), len(flat_b) + len(flat_c) - 2 * matched
 
 
 def form_independent(prop: str, rule: str, construct: str) -> bool:
